@@ -47,6 +47,38 @@ def main():
             json.dump(dict(v, check="C08"), open(path, "w"), indent=1)
             print(f"VIOLATION property=C08 replay={path}")
             viol += 1
+    # type-level half of "can be sent to other threads": auto-trait probes
+    sys.path.insert(0, "/verif/gen")
+    import probes as P
+    ext = P.build_libs()
+    if ext is None:
+        sys.exit(2)
+    PRE = "#![allow(dead_code, unused_imports)]\nuse epserde::prelude::*;\nuse std::rc::Rc;\nuse std::cell::Cell;\nfn need_send<T: Send>() {}\nfn need_sync<T: Sync>() {}\n"
+    fam = [
+        ("pos.vec-send-sync", PRE + "fn main() { need_send::<MemCase<Vec<u8>>>(); need_sync::<MemCase<Vec<u8>>>(); need_send::<MemCase<&'static [u64]>>(); need_sync::<MemCase<&'static [u64]>>(); }", True),
+        ("pos.boxed-moved-to-thread", PRE + "fn main() { let c = Box::new(MemCase::encase(vec![1u8, 2])); std::thread::spawn(move || { assert_eq!(c.len(), 2); }).join().unwrap(); }", True),
+        ("neg.rc-not-send", PRE + "fn main() { need_send::<MemCase<Rc<u8>>>(); }", False),
+        ("neg.rc-not-sync", PRE + "fn main() { need_sync::<MemCase<Rc<u8>>>(); }", False),
+        ("neg.cell-not-sync", PRE + "fn main() { need_sync::<MemCase<Cell<u8>>>(); }", False),
+        ("neg.raw-pointer-not-send", PRE + "fn main() { need_send::<MemCase<*const u8>>(); }", False),
+        ("neg.rc-into-thread", PRE + "fn main() { let c = MemCase::encase(Rc::new(5u8)); std::thread::spawn(move || { let _ = **c; }).join().unwrap(); }", False),
+        ("neg.cell-shared-across-threads", PRE + "fn main() { let c = MemCase::encase(Cell::new(5u8)); std::thread::scope(|s| { s.spawn(|| c.set(6)); }); }", False),
+    ]
+    res = P.run_all(ext, [(i, src) for i, src, _ in fam], run=False)
+    auto = {}
+    for (pid, src, must), r in zip(fam, res):
+        ok = r["compiled"] == must and (must or set(r["errors"]) & {"E0277"})
+        auto[pid] = "ok" if ok else "WRONG"
+        if not ok:
+            if must:
+                sys.stderr.write(f"MACHINERY: positive auto-trait probe {pid} does not compile: {r['stderr'][-500:]}\n")
+                sys.exit(2)
+            path = f"/verif/evidence/replay/C08-autotrait-{pid}.json"
+            json.dump({"check": "C08", "class": "memcase-auto-trait-too-permissive", "probe": pid, "source": src, "observed": "compiles" if r["compiled"] else r["stderr"][-800:]}, open(path, "w"), indent=1)
+            print(f"VIOLATION property=C08 replay={path}")
+            viol += 1
+    c["auto_trait_probes"] = auto
+    c["evaluations"] += len(fam)
     c["rule"] = ("every type of the universe x first/last values x loaders {load_full, load_mem, load_mmap, mmap} x flag sets, with operation histories on the loaded case; "
                  "loom: all interleavings (up to the preemption bound) of Arc/channel/join ownership operations over a real loaded MemCase for 3 loaders x 3 sharing shapes; "
                  "feature configuration std,derive (no mmap): store/load_full/load_mem on a hand-written type set")
